@@ -32,7 +32,7 @@ def _trace(exe, seed, idx, tier):
 def run(chk):
     e5 = build('asan-dbg5')
     e4 = build('asan')
-    per = chk.pick(500, 6250)                    # per shard; 16 shards -> 2000 / 100000 interleavings
+    per = chk.pick(500, 30000)                    # per shard; 16 shards -> 2000 / 100000 interleavings
     r5 = chk.run('dbg5', e5, per, timeout=3000)
     r4 = chk.run('dbg4-macros', e4, per, timeout=3000)
     # the same interleavings without ASan: glibc's realloc resizes in place (ASan's always moves the block), so the
@@ -64,7 +64,7 @@ def run(chk):
     # second population of DESIGN §4 C15: the C06 object programs (strings, buffers, pairs, tokenizers, URLs, containers, iterators,
     # split/join arrays) on the tracking build at runtime level 5 -- the tracker must list nothing once the program has deleted all it owned
     eo = vf.build_harness('c06', 'asan-dbg5', ['c06.c'], ldflags=['-rdynamic'])
-    ro = chk.run('object-programs-dbg5', eo, chk.pick(200, 2000), timeout=3000)
+    ro = chk.run('object-programs-dbg5', eo, chk.pick(200, 12000), timeout=3000)
     chk.cov['object_programs_with_empty_tracker_table'] = ro.counts.get('tracker_empty_after_program', 0)
     if ro.counts.get('tracker_empty_after_program', 0) < 500 and not ro.violations:
         chk.inconclusive.append('fewer than 500 object programs reached the tracker-empty monitor')
